@@ -139,6 +139,16 @@ def run(ctx):
             for mode in ("json", "csv", "batch_table"):
                 jobs.append({"args": [sql.format(f=name), "-o", mode], "cwd": d})
                 meta.append((sql.format(f=name), mode, "drift"))
+    # every output mode must be able to print every kind of value (nested values, NULL-only columns, wide unions, special floats)
+    with open(os.path.join(d, "nested.json"), "w") as f:
+        f.write('{"l":[1,2],"o":{"x":1,"y":[true,null]},"e":[],"n":null,"m":1,"s":"a,b\\"c\\nd"}\n{"l":["x",[1]],"o":{"x":"s"},"e":[[]],"n":null,"m":"t","s":""}\n')
+    with open(os.path.join(d, "special.csv"), "w") as f:
+        f.write("f,g\nNaN,1\nInf,\n-Inf,2\n1e308,3\n")
+    for sql in ("SELECT * FROM nested.json t", "SELECT t.l AS l, t.o AS o FROM nested.json t ORDER BY t.m", "SELECT t.l[0] AS a, t.o->x AS b, (t.m, t.s) AS tup FROM nested.json t",
+                "SELECT (SELECT u.m FROM nested.json u) AS sub FROM nested.json t", "SELECT * FROM special.csv t", "SELECT t.f * 2 AS d, t.g AS g FROM special.csv t ORDER BY t.f"):
+        for mode in ("json", "csv", "batch_table", "live_table", "stream_native"):
+            jobs.append({"args": [sql, "-o", mode], "cwd": d})
+            meta.append((sql, mode, "values"))
     edge_cli = [pl.format(e=e) for e in EDGE_EXPRS for pl in (PLACES if thorough else PLACES[:6])]
     pool = [s for _, s, tag in corpus if tag.startswith("mutated")]
     sample = rng.sample(pool, min(len(pool), 600 if thorough else 120))
